@@ -255,6 +255,8 @@ static void mm_compare_with_snapshot(int n_done, const char *when)
 	}
 }
 
+const char *units_spin_prop = "C12"; /* which property a never-returning operation of the allocator history violates */
+
 void mm_run(void)
 {
 	mk = &RK[0];
@@ -311,7 +313,9 @@ void mm_run(void)
 		}
 		if(n_done % ckpt_every == 0 || prng_below(&r, 12) == 0) {
 			/* the next checkpoint runs under ASan: an under-counted size is a heap overflow right here */
+			units_spin_prop = "C05";
 			mk->model_allocator_checkpoint_take(&mm_lp.mm_state, (array_count_t)(n_done - base));
+			units_spin_prop = "C12";
 			mm_snaps[n_done].ckpt_here = true;
 			mm_ckpts++;
 		}
@@ -322,7 +326,9 @@ void mm_run(void)
 				target = base; /* the oldest kept checkpoint */
 			struct mm_state *mm = &mm_lp.mm_state;
 			array_count_t arenas_before = array_count(mm->buddies);
+			units_spin_prop = "C05";
 			array_count_t got = mk->model_allocator_checkpoint_restore(mm, (array_count_t)(target - base));
+			units_spin_prop = "C12";
 			int from = base + (int)got;
 			if(from > target)
 				sim_violation("C05", "restore-after-target", "restore to %d used a checkpoint taken at %d", target, from);
@@ -364,7 +370,9 @@ void mm_run(void)
 			/* GVT advanced: everything up to an arbitrary committed frontier may be reclaimed */
 			int frontier = base + 1 + (int)prng_below(&r, (uint64_t)(n_done - base));
 			struct mm_state *mm = &mm_lp.mm_state;
+			units_spin_prop = "C13";
 			array_count_t got = mk->model_allocator_fossil_lp_collect(mm, (array_count_t)(frontier - base));
+			units_spin_prop = "C12";
 			if((int)got > frontier - base)
 				sim_violation("C13", "fossil-beyond-target", "allocator released history up to %u, the committed frontier is %d", got,
 				    frontier - base);
